@@ -107,6 +107,8 @@ func (t *takeCollection) Count() (int, bool) {
 	if n, ok := t.c.Count(); ok {
 		if n < t.n {
 			return n, true
+		} else if t.n < 0 {
+			return 0, true
 		} else {
 			return t.n, true
 		}
